@@ -1,4 +1,5 @@
 """C02 - RGB->YUV encoding rounds to the nearest code of the H.273 quantisation."""
+import os
 from vlib.check import Plan
 from vlib import native
 from props import yuvfam as Y
@@ -37,6 +38,9 @@ def add_we(txt, hs, cfgs):
 def plan(tier, seed):
     p = Plan()
     p.native = True
+    p.stubbing = True
+    p.modules.append(("yuvxyb-math/src/matrix.rs", open(os.path.join(os.path.dirname(__file__), "..", "harness", "math_stub.rs")).read()))
+    p.modules.append(("yuvxyb-math/src/lib.rs", open(os.path.join(os.path.dirname(__file__), "..", "harness", "math_stub_lib.rs")).read()))
     wcfgs = w_instances(tier, seed)
 
     def late(ctx, plan):
@@ -46,6 +50,13 @@ def plan(tier, seed):
         txt = add_q(txt, hs)
         txt = add_k(txt, hs, consts)
         txt = add_we(txt, hs, wcfgs)
+        for row in range(3):
+            n, code = Y.s_lemma(row)
+            txt += code
+            hs.append(dict(name=n, family="S", timeout=1500, mem_gb=10, replay=None,
+                           obligation="S-lemma row %d: the real Matrix::mul_arr is bit-identical to the straight-line f32 expression m0*p0 + (m1*p1 + m2*p2) (3 products, 2 sums; what the standard-model bound in the glue is about)" % row,
+                           sym="vector: every f32 in [-2,2]^3; the row's 3 coefficients on the fixed-point grid k/64, |k|<=128 (full-width coefficients make SAT prove the equivalence of two 24x24 multiplier circuits: >1500 s); other rows generic constants",
+                           covers=["non-trivial coefficients explored"]))
         txt += Y.EPILOGUE
         plan.modules.append(("src/yuv_rgb.rs", txt))
         plan.harnesses = hs
@@ -71,7 +82,8 @@ def plan(tier, seed):
     p.bounds = ["Q-lemma: every f32 in [-1.3,2.3] at every depth 8..16, both ranges, both storages", "W-lemma: every f32 pixel (all bit patterns) on 1x1 images for %d of the 140 (storage, depth, range, matrix) instances%s" % (len(wcfgs), "" if tier == "thorough" else " (quick: every matrix once)"),
                 "glue: all 126 configurations x 3 planes, rgb real in [-0.5,1.5]^3"]
     p.outside = ["subsampled output layout (C11)", "FMA build"]
-    p.assumptions = ["IEEE-754 standard model for the dot product (see C01)", "H.273 constants transcribed in props/yuvfam.py"]
+    p.assumptions = ["W-lemmas replace Matrix::mul_arr on both sides by one pure bit-mixing stand-in (they decide the wiring: which matrix, which inputs, in which order); that the real mul_arr is the 5-operation f32 expression is the S-lemma, proved for coefficient rows on the k/64 grid and every vector - mul_arr has no data-dependent control flow, so the same operation DAG is executed for full-width coefficients (argument, not a solver result)",
+                     "IEEE-754 standard model for the dot product (see C01)", "H.273 constants transcribed in props/yuvfam.py"]
     p.trusted += ["z3 4.8.12 (QF_LRA) cross-checked with cvc5 1.0"]
     return p
 
